@@ -256,6 +256,10 @@ static void scanner_state(YR_SCANNER* s) {
   for (i = 0; i < (int) r->num_strings; i++) { if (s->matches[i].head || s->matches[i].count) heads++; if (s->unconfirmed_matches[i].head || s->unconfirmed_matches[i].count) heads++; }
   ob_puts(&out, ",\"bits\":\""); char b[32]; snprintf(b, sizeof b, "%016llx", (unsigned long long) h); ob_puts(&out, b);
   ob_puts(&out, "\",\"heads\":"); ob_int(&out, heads);
+  { long objs = 0; YR_HASH_TABLE* t = s->objects_table; for (i = 0; t && i < t->size; i++) { YR_HASH_TABLE_ENTRY* e = t->buckets[i]; while (e) { objs++; e = e->next; } }
+    ob_puts(&out, ",\"objects\":"); ob_int(&out, objs); }
+  ob_puts(&out, ",\"fibers\":"); ob_int(&out, s->re_fiber_pool.fiber_count);
+  ob_puts(&out, ",\"iter\":"); ob_int(&out, 0);
   ob_putc(&out, '}');
 }
 
